@@ -219,8 +219,15 @@ def master (req : Json) : R Reply := do
   let predicted ← (do
     if useVar then
       let axes ← asList asAxis (← field var "axes")
-      let cx : KCtx := { side1Classes := ← asSL (← field var "side1Classes"), side2Classes := ← asSL (← field var "side2Classes"),
-                         glyphSet := ← asList asStr (← field var "glyphSet"), q := m.q }
+      -- the classes: the MODEL of `getKerningGroups` on the concatenated group dicts of this variable font's sources (sources may
+      -- carry different groups); older replay files only have the classes the implementation computed
+      let glyphSet ← asList asStr (← field var "glyphSet")
+      let cls ← (match var.getObjVal? "allGroups" with
+        | .ok g => do
+          let gs := getKerningGroups glyphSet (← asSL g)
+          pure (gs.side1, gs.side2)
+        | .error _ => do pure (← asSL (← field var "side1Classes"), ← asSL (← field var "side2Classes")) : R (List (String × List String) × List (String × List String)))
+      let cx : KCtx := { side1Classes := cls.1, side2Classes := cls.2, glyphSet := glyphSet, q := m.q }
       let srcs ← asList (fun j => do
         return ({ loc := userLoc axes (← asLocItems (← field j "dloc")), sparse := ← asBool (← field j "sparse"),
                   kerning := ← asKerning (← field j "kerning") } : Source)) (← field var "sources")
